@@ -1,6 +1,6 @@
 (* Extract.v — extraction of the executable model to OCaml (ExtrOcamlBasic only: bool, option, unit, list,
    prod, sumbool, sumor mapped to OCaml's; N, Z, positive, nat stay the extracted inductive types). *)
-Require Import Base Cbor EncoderModel Timestamp DecoderModel.
+Require Import Base Cbor EncoderModel Timestamp DecoderModel Schema.
 Require Extraction.
 Require Import ExtrOcamlBasic.
 Extraction Blacklist String List Nat Int.
@@ -10,4 +10,7 @@ Extraction "model.ml"
   enc_init estep eruns stream flush
   get_time_offset add_time_offset ts_lt ts_le bt_init bt_add
   mcode DEC_BUFFER_SIZE run run_phys phys_init logical peek_type read_unsigned read_negative read_integer read_bool
-  read_bytestring read_textstring read_array_start read_map_start read_break skip_item.
+  read_bytestring read_textstring read_array_start read_map_start read_break skip_item
+  write_val read_val write_struct has_ty StorageHints StorageParameters CollectionParameters BlockParameters FilePreamble ClassType
+  QueryResponseSignature Question RR MalformedMessageData ResponseProcessingData QueryResponseExtended BlockPreamble
+  BlockStatistics QueryResponse AddressEventCount MalformedMessage BlockTables Block.
